@@ -1,6 +1,407 @@
 package main
 
-import "ipchubverif/report"
+import (
+	"bytes"
+	"encoding/binary"
+	"fmt"
+	"regexp"
+	"strconv"
+	"strings"
 
-// adapters: sequential exhaustive sweep of every transport adapter (added with the session harness).
-func adapters(rep *report.Report) {}
+	"github.com/cnotch/ipchub/av/format/rtp"
+	"github.com/cnotch/ipchub/config"
+	"github.com/cnotch/ipchub/media"
+	"github.com/cnotch/ipchub/service/wsp"
+	"github.com/cnotch/ipchub/stats"
+
+	"ipchubverif/hs"
+	"ipchubverif/hx"
+	"ipchubverif/oracle/rtppack"
+	"ipchubverif/oracle/rtspwire"
+	"ipchubverif/runner"
+	"ipchubverif/vnet"
+	"ipchubverif/vrt"
+)
+
+// Part (b): the transport adapters, end to end. A real publisher session (ANNOUNCE, SETUP x2,
+// RECORD over TCP) pushes interleaved frames on all four channels; players of every transport
+// (RTSP/TCP, RTSP/UDP, two multicast members, ws-rtsp, WSP) attach and detach through their own
+// real sessions. The operation sequence itself is the explored dimension: at every step the
+// environment chooses "publish the next packet" (default) or one enabled attach / detach; the
+// explorer enumerates every sequence with at most E attach/detach events among `steps` steps.
+// After every operation the system runs to quiescence, so each player must have received
+// exactly the packets published while it was attached: all of them, once, in order, unmodified,
+// on the channel they were published on -- whatever the other players did.
+
+type rec struct {
+	ch   int
+	data []byte
+}
+
+type player struct {
+	kind      string
+	attached  bool
+	done      bool // detached
+	from, to  int  // published-packet indexes [from, to)
+	dgFrom    int  // datagram-log index at attach (udp, multicast)
+	dgTo      int
+	tcp       *hs.Client
+	ws        *hs.WSClient
+	wspSrv    *wsp.VerifServer
+	wsp       *hs.WSPClient
+	mcPorts   map[int]int // destination port -> channel (multicast)
+	mcGroup   string
+	got       []rec
+	handshake string
+}
+
+var kinds = []string{"tcp", "udp", "mc1", "mc2", "ws", "wsp"}
+
+const (
+	pushURL = "rtsp://h/live/p"
+	udpBase = 41000
+)
+
+var portRe = regexp.MustCompile(`port=(\d+)-(\d+)`)
+var destRe = regexp.MustCompile(`destination=([0-9.]+)`)
+
+func codes(items []rtspwire.Item) string {
+	var c []string
+	for _, r := range hs.Responses(items) {
+		c = append(c, strconv.Itoa(r.Status))
+	}
+	return strings.Join(c, ",")
+}
+
+func (p *player) attach(x *vrt.Exec) {
+	var hsk []string
+	add := func(items []rtspwire.Item) { hsk = append(hsk, codes(items)) }
+	tr := func(track int) string {
+		switch p.kind {
+		case "udp":
+			return fmt.Sprintf("RTP/AVP;unicast;client_port=%d-%d", udpBase+2*track, udpBase+2*track+1)
+		case "mc1", "mc2":
+			return "RTP/AVP;multicast"
+		}
+		return fmt.Sprintf("RTP/AVP/TCP;unicast;interleaved=%d-%d", 2*track, 2*track+1)
+	}
+	switch p.kind {
+	case "tcp", "udp", "mc1", "mc2":
+		p.tcp = hs.NewTCP(p.kind)
+		vrt.WhenIdle()
+		_, it := p.tcp.Do("DESCRIBE", pushURL, nil, "")
+		add(it)
+		for track := 0; track < 2; track++ {
+			_, it = p.tcp.Do("SETUP", fmt.Sprintf("%s/streamid=%d", pushURL, track), map[string]string{"Transport": tr(track)}, "")
+			add(it)
+			if strings.HasPrefix(p.kind, "mc") {
+				for _, r := range hs.Responses(it) {
+					t := r.Get("Transport")
+					if m := portRe.FindStringSubmatch(t); m != nil {
+						a, _ := strconv.Atoi(m[1])
+						b, _ := strconv.Atoi(m[2])
+						if p.mcPorts == nil {
+							p.mcPorts = map[int]int{}
+						}
+						p.mcPorts[a], p.mcPorts[b] = 2*track, 2*track+1
+					}
+					if m := destRe.FindStringSubmatch(t); m != nil {
+						p.mcGroup = m[1]
+					}
+				}
+			}
+		}
+		_, it = p.tcp.Do("PLAY", pushURL, nil, "")
+		add(it)
+	case "ws":
+		p.ws = hs.NewWSRtsp("ws", "/live/p", "")
+		vrt.WhenIdle()
+		_, it := p.ws.Do("DESCRIBE", pushURL, nil, "")
+		add(it)
+		for track := 0; track < 2; track++ {
+			_, it = p.ws.Do("SETUP", fmt.Sprintf("%s/streamid=%d", pushURL, track), map[string]string{"Transport": tr(track)}, "")
+			add(it)
+		}
+		_, it = p.ws.Do("PLAY", pushURL, nil, "")
+		add(it)
+	case "wsp":
+		p.wspSrv = wsp.VerifNewServer()
+		p.wsp = hs.NewWSP(p.wspSrv, "wsp", "/live/p", "")
+		p.wsp.Join(p.wspSrv, "/live/p", "", p.wsp.Channel)
+		st := func(r *rtspwire.Item) {
+			if r == nil {
+				hsk = append(hsk, "none")
+			} else {
+				hsk = append(hsk, strconv.Itoa(r.Status))
+			}
+		}
+		st(p.wsp.Wrap("DESCRIBE", pushURL, nil))
+		for track := 0; track < 2; track++ {
+			st(p.wsp.Wrap("SETUP", fmt.Sprintf("%s/streamid=%d", pushURL, track), map[string]string{"Transport": tr(track)}))
+		}
+		st(p.wsp.Wrap("PLAY", pushURL, nil))
+	}
+	p.handshake = strings.Join(hsk, " ")
+	if p.handshake != "200 200 200 200" {
+		x.Failf("adapters handshake-refused "+p.kind, "%s player: DESCRIBE/SETUP/SETUP/PLAY answered [%s]", p.kind, p.handshake)
+	}
+	p.attached = true
+}
+
+func (p *player) detach() {
+	switch p.kind {
+	case "tcp", "udp", "mc1", "mc2":
+		p.tcp.Do("TEARDOWN", pushURL, nil, "")
+	case "ws":
+		p.ws.Do("TEARDOWN", pushURL, nil, "")
+	case "wsp":
+		p.wsp.Wrap("TEARDOWN", pushURL, nil)
+	}
+	vrt.WhenIdle()
+	p.attached, p.done = false, true
+}
+
+// collect gathers what the player has received so far.
+func (p *player) collect(x *vrt.Exec, dgs []vnet.Datagram) {
+	switch p.kind {
+	case "tcp":
+		p.tcp.Drain()
+		p.got = nil
+		for _, f := range hs.Frames(p.tcp.Items) { // everything since the connection opened
+			p.got = append(p.got, rec{f.Channel, f.Payload})
+		}
+		if p.tcp.ParseErr != nil {
+			x.Failf("adapters tcp-stream-garbled", "%v", p.tcp.ParseErr)
+		}
+	case "ws":
+		p.ws.Drain()
+		p.got = nil
+		for _, f := range hs.Frames(p.ws.Items) {
+			p.got = append(p.got, rec{f.Channel, f.Payload})
+		}
+		for _, t := range p.ws.TornMsgs {
+			x.Failf("adapters ws-message-not-one-item", "%s", t)
+		}
+	case "wsp":
+		for _, f := range p.wsp.DataFrames() {
+			p.got = append(p.got, rec{f.Channel, f.Payload})
+		}
+		for _, t := range p.wsp.Torn {
+			x.Failf("adapters wsp-message-not-one-item", "%s", t)
+		}
+	case "udp":
+		p.got = nil
+		for _, d := range dgs {
+			_, port := splitHostPort(d.To)
+			if port >= udpBase && port < udpBase+4 {
+				p.got = append(p.got, rec{port - udpBase, d.Data})
+			}
+		}
+	case "mc1", "mc2":
+		p.got = nil
+		end := len(dgs)
+		if p.done {
+			end = p.dgTo
+		}
+		for i := p.dgFrom; i < end && i < len(dgs); i++ {
+			host, port := splitHostPort(dgs[i].To)
+			if ch, ok := p.mcPorts[port]; ok && host == p.mcGroup {
+				p.got = append(p.got, rec{ch, dgs[i].Data})
+			}
+		}
+	}
+}
+
+func splitHostPort(s string) (string, int) {
+	i := strings.LastIndex(s, ":")
+	if i < 0 {
+		return s, -1
+	}
+	n, _ := strconv.Atoi(s[i+1:])
+	return s[:i], n
+}
+
+func frame(ch byte, data []byte) []byte {
+	b := []byte{'$', ch, 0, 0}
+	binary.BigEndian.PutUint16(b[2:], uint16(len(data)))
+	return append(b, data...)
+}
+
+func adapterBody(steps int, abrupt bool) func(x *vrt.Exec) {
+	chans := []byte{0, 2, 1, 0, 3, 2, 0, 2, 0, 1}
+	return func(x *vrt.Exec) {
+		vrt.Quiet(true)
+		media.VerifReset()
+		config.VerifSet(false, false, 5, "")
+		base := stats.RtspConns.GetSample().Active
+		pusher := hs.NewTCP("pusher")
+		vrt.WhenIdle()
+		var hsk []string
+		_, it := pusher.Do("ANNOUNCE", pushURL, map[string]string{"Content-Type": "application/sdp"}, hx.SdpH264AAC)
+		hsk = append(hsk, codes(it))
+		for track := 0; track < 2; track++ {
+			_, it = pusher.Do("SETUP", fmt.Sprintf("%s/streamid=%d", pushURL, track), map[string]string{"Transport": fmt.Sprintf("RTP/AVP/TCP;unicast;interleaved=%d-%d;mode=record", 2*track, 2*track+1)}, "")
+			hsk = append(hsk, codes(it))
+		}
+		_, it = pusher.Do("RECORD", pushURL, nil, "")
+		hsk = append(hsk, codes(it))
+		if strings.Join(hsk, " ") != "200 200 200 200" || media.Get("/live/p") == nil {
+			x.Failf("adapters publisher-refused", "ANNOUNCE/SETUP/SETUP/RECORD answered %v", hsk)
+			return
+		}
+		players := map[string]*player{}
+		for _, k := range kinds {
+			players[k] = &player{kind: k}
+		}
+		var published []rec
+		var trail []string
+		vrt.Quiet(false)
+		for step := 0; step < steps; step++ {
+			var ops []string
+			ops = append(ops, "pub")
+			for _, k := range kinds {
+				if p := players[k]; !p.attached && !p.done {
+					ops = append(ops, "attach:"+k)
+				}
+			}
+			for _, k := range kinds {
+				if players[k].attached {
+					ops = append(ops, "detach:"+k)
+				}
+			}
+			op := ops[vrt.Choose(len(ops), "op")]
+			trail = append(trail, op)
+			vrt.Quiet(true)
+			switch {
+			case op == "pub":
+				i := len(published)
+				ch := chans[i%len(chans)]
+				var data []byte
+				if ch%2 == 0 {
+					data = hx.Pkt(ch, 96, true, uint16(i), uint32(3000*i), rtppack.H264Single(hx.NAL(2, 1, 6+i, byte(i)))).Data
+				} else {
+					data = append([]byte{0x80, 200, 0, 6}, bytes.Repeat([]byte{byte(0x10 + i)}, 24)...) // RTCP sender report shaped
+				}
+				published = append(published, rec{int(ch), data})
+				pusher.SendRaw(frame(ch, data))
+				vrt.WhenIdle()
+			case strings.HasPrefix(op, "attach:"):
+				p := players[op[7:]]
+				p.from = len(published)
+				p.dgFrom = len(vnet.Datagrams())
+				p.attach(x)
+			default:
+				p := players[op[7:]]
+				if abrupt {
+					switch {
+					case p.tcp != nil:
+						p.tcp.Conn.Close()
+					case p.ws != nil:
+						p.ws.Sock.ClientClose()
+					default:
+						p.wsp.Ctl.ClientClose()
+						p.wsp.Data.ClientClose()
+					}
+					vrt.WhenIdle()
+					p.attached, p.done = false, true
+				} else {
+					p.detach()
+				}
+				p.to = len(published)
+				p.dgTo = len(vnet.Datagrams())
+			}
+			vrt.Quiet(false)
+		}
+		vrt.Quiet(true)
+		history := strings.Join(trail, " ")
+		dgs := vnet.Datagrams()
+		var obs []string
+		for _, k := range kinds {
+			p := players[k]
+			if !p.attached && !p.done {
+				continue
+			}
+			if p.attached {
+				p.to = len(published)
+			}
+			p.collect(x, dgs)
+			want := published[p.from:p.to]
+			ok := len(want) == len(p.got)
+			for i := 0; ok && i < len(want); i++ {
+				ok = want[i].ch == p.got[i].ch && bytes.Equal(want[i].data, p.got[i].data)
+			}
+			if !ok {
+				x.Failf("adapters "+strings.TrimRight(k, "12")+"-reception-differs", "history [%s]: %s player attached for packets [%d,%d) received %s, expected %s", history, k, p.from, p.to, show(p.got, published), show(want, published))
+			}
+			obs = append(obs, fmt.Sprintf("%s=%d", k, len(p.got)))
+		}
+		// datagrams nobody asked for
+		for _, d := range dgs {
+			_, port := splitHostPort(d.To)
+			known := port >= udpBase && port < udpBase+4
+			for _, k := range []string{"mc1", "mc2"} {
+				if _, ok := players[k].mcPorts[port]; ok {
+					known = true
+				}
+			}
+			if !known {
+				x.Failf("adapters datagram-to-unknown-destination", "history [%s]: datagram to %s", history, d.To)
+				break
+			}
+		}
+		x.Observe("%s", strings.Join(obs, " "))
+		// end: the publisher leaves; everything must be released
+		pusher.Do("TEARDOWN", pushURL, nil, "")
+		vrt.WhenIdle()
+		for _, k := range kinds {
+			p := players[k]
+			switch {
+			case p.tcp != nil:
+				p.tcp.Conn.Close()
+			case p.ws != nil:
+				p.ws.Sock.ClientClose()
+			case p.wsp != nil:
+				p.wsp.Ctl.ClientClose()
+				p.wsp.Data.ClientClose()
+			}
+		}
+		vrt.WhenIdle()
+		if n := vnet.OpenUDP(); n != 0 {
+			x.Failf("adapters udp-socket-left-open", "history [%s]: %d UDP sockets still open after every session ended", history, n)
+		}
+		if a := stats.RtspConns.GetSample().Active; a != base {
+			x.Failf("adapters connection-count-not-restored", "history [%s]: %d active RTSP connections, %d before", history, a, base)
+		}
+		if media.Get("/live/p") != nil {
+			x.Failf("adapters stream-left-registered", "history [%s]", history)
+		}
+		stuck(x, "adapters")
+	}
+}
+
+func show(rs []rec, published []rec) string {
+	var out []string
+	for _, r := range rs {
+		idx := -1
+		for i, p := range published {
+			if bytes.Equal(p.data, r.data) {
+				idx = i
+			}
+		}
+		out = append(out, fmt.Sprintf("#%d@ch%d", idx, r.ch))
+	}
+	return "[" + strings.Join(out, " ") + "]"
+}
+
+func adapterScenarios(thorough bool) []runner.Scenario {
+	steps, e, sh := 6, 3, 8
+	if thorough {
+		steps, e, sh = 8, 4, 16
+	}
+	return []runner.Scenario{
+		{Name: fmt.Sprintf("adapters-teardown-steps%d", steps), Body: adapterBody(steps, false), P: 0, E: e, Shards: sh, Horizon: 400000},
+		{Name: fmt.Sprintf("adapters-disconnect-steps%d", steps), Body: adapterBody(steps, true), P: 0, E: e, Shards: sh, Horizon: 400000},
+	}
+}
+
+var _ = rtp.ChannelVideo
